@@ -117,6 +117,85 @@ theorem d23_witness : runUnordered [2, 1] = some 1 := by decide
 example : (run 2 ⟨[], none⟩ [.publish 1, .publish 2, .publish 3, .apply, .apply, .apply] : Watcher Nat).applied = some 3
     ∧ (run 2 ⟨[], none⟩ [.publish 1, .publish 2, .publish 3, .apply, .apply, .apply] : Watcher Nat).queue = [] := by decide
 
+
+/-! ### many clients on one discovery, coming and going -/
+
+/-- every registered watcher satisfies the single-watcher invariant w.r.t. the discovery's current list -/
+def HubInv {α : Type} (h : Hub α) : Prop := ∀ e ∈ h.ws, Inv e.2 h.current
+
+theorem hubStep_inv {α : Type} (cap : Nat) (hc : 0 < cap) (h : Hub α) (s : HubStep α) (hi : HubInv h) :
+    HubInv (hubStep cap h s) := by
+  cases s with
+  | watch id =>
+    simp only [hubStep]
+    split
+    · exact hi
+    · intro e he
+      simp only [List.mem_append, List.mem_singleton] at he
+      rcases he with he | he
+      · exact hi e he
+      · subst he; simp [Inv]
+  | remove id =>
+    intro e he
+    simp only [hubStep, List.mem_filter] at he
+    exact hi e he.1
+  | publish x =>
+    intro e he
+    simp only [hubStep, List.mem_map] at he
+    obtain ⟨e0, _, rfl⟩ := he
+    simp only [hubStep]
+    unfold Inv; rw [notify_last cap hc e0.2 x]
+  | apply id =>
+    intro e he
+    simp only [hubStep, List.mem_map] at he
+    obtain ⟨e0, he0, rfl⟩ := he
+    simp only [hubStep]
+    split
+    · exact applyOne_inv _ _ (hi e0 he0)
+    · exact hi e0 he0
+
+theorem hubRun_inv {α : Type} (cap : Nat) (hc : 0 < cap) : ∀ (steps : List (HubStep α)) (h : Hub α),
+    HubInv h → HubInv (hubRun cap h steps) := by
+  intro steps
+  induction steps with
+  | nil => intro h hi; exact hi
+  | cons s rest ih => intro h hi; exact ih _ (hubStep_inv cap hc h s hi)
+
+theorem hubRun_current {α : Type} (cap : Nat) : ∀ (steps : List (HubStep α)) (h : Hub α),
+    (hubRun cap h steps).current = (hubLastPublished steps).orElse (fun _ => h.current) := by
+  intro steps
+  induction steps with
+  | nil => intro h; simp [hubRun, hubLastPublished]
+  | cons s rest ih =>
+    intro h
+    have := ih (hubStep cap h s)
+    simp only [hubRun, List.foldl_cons] at this ⊢
+    rw [this]
+    cases s with
+    | publish x => cases hl : hubLastPublished rest <;> simp [hubLastPublished, hubStep, hl]
+    | watch id => simp only [hubLastPublished, hubStep]; split <;> rfl
+    | remove id => simp [hubLastPublished, hubStep]
+    | apply id => simp [hubLastPublished, hubStep]
+
+/-- **Convergence with churn**: whatever clients are created and closed and whenever, after any
+    schedule every client that is still registered and has nothing pending uses exactly the last
+    published list – closing one client never makes another miss an update. -/
+theorem hub_converges {α : Type} (cap : Nat) (hc : 0 < cap) (steps : List (HubStep α)) (x : α)
+    (hl : hubLastPublished steps = some x) (id : Nat) (w : Watcher α)
+    (hm : (id, w) ∈ (hubRun cap ⟨none, []⟩ steps).ws) (hq : w.queue = []) : w.applied = some x := by
+  have hi := hubRun_inv cap hc steps ⟨none, []⟩ (by intro e he; cases he) (id, w) hm
+  rw [hubRun_current, hl] at hi
+  unfold Inv at hi
+  simp only [hq, List.getLast?_nil, Option.orElse] at hi
+  rcases hi with hi | hi
+  · cases hi
+  · exact hi
+
+/-- non-vacuity: three clients, the first is closed between two updates, a fourth joins late -/
+example : ((hubRun 2 ⟨none, []⟩ [.watch 1, .watch 2, .watch 3, .publish 10, .remove 1, .publish 20, .watch 4,
+      .apply 2, .apply 2, .apply 3, .apply 3] : Hub Nat).ws.map (fun e => (e.1, e.2.applied, e.2.queue)))
+    = [(2, some 20, []), (3, some 20, []), (4, some 20, [])] := by decide
+
 /-- a delivered server list is a VALUE for the watcher (the model's assumption): no function of
     the client sorts, in place, a list that belongs to the discovery and is shared with the
     publisher and the other watchers (regenerated fact) -/
